@@ -16,6 +16,9 @@ PYDANTIC_RESERVED_FIELD_NAMES = [
     name for name in dir(BaseModel) if not name.startswith("_")
 ]
 
+# sections of imports must not depend on what the working directory holds
+ISORT_CONFIG = isort.Config(src_paths=())
+
 
 def ast_to_str(
     ast_obj: ast.AST,
@@ -30,7 +33,7 @@ def ast_to_str(
         code = fix_code(code, remove_all_unused_imports=True)
     if multiline_strings:
         code = format_multiline_strings(code, offset=multiline_strings_offset)
-    return format_str(isort.code(code), mode=Mode())
+    return format_str(isort.code(code, config=ISORT_CONFIG), mode=Mode())
 
 
 def remove_blank_line_between_class_and_content(code: str) -> str:
